@@ -1,17 +1,16 @@
 SPECIFICATION Spec
 CONSTANTS
   Addr <- Addr2
-  Gaps <- GapsJitter2
+  Gaps <- GapsFixed2
   T = 10
   D = 1
   MaxEvents = 3
   MaxFails = 2
-  Backoff = TRUE
+  Backoff = FALSE
   Closed = TRUE
-  ObserveCb = FALSE
-  TrackQuiet = FALSE
+  ObserveCb = TRUE
+  TrackQuiet = TRUE
   UnitMs = 1000
 INVARIANTS TypeOK Converged LearnsLive ForgetsDead SelfListed PeriodRestored NoDuplicateAddr ChannelSane
 PROPERTIES CallbackIffChange NoResurrection
-ACTION_CONSTRAINT Dump
 VIEW View
